@@ -168,6 +168,64 @@ def exec_transform(job):
         shutil.rmtree(d, ignore_errors=True)
 
 
+
+def exec_cli_bag(job):
+    """evo_traj bag in.bag /est --ref /gt --save_as_bag: the exported ROS1 bag holds, per topic, the poses, the frame id and the
+    stamps (within 1 ns) of the input; read back with rosbags directly (independent of evo's reader)"""
+    import glob
+    import random
+    from fractions import Fraction
+    import cli
+    from evo.core.trajectory import PoseTrajectory3D
+    from evo.tools import file_interface as fi
+    from rosbags.rosbag1 import Reader, Writer
+    from rosbags.typesys import Stores, get_typestore
+    n, c, seed = job
+    N = c["n"] // 2
+    rr = random.Random(seed * 7919 + n)
+    d = tempfile.mkdtemp(prefix="cb_", dir=core.workdir())
+    try:
+        frames = {"/est": "odom_é", "/gt": "map"}
+        src = {}
+        with Writer(os.path.join(d, "in.bag")) as wr:
+            for k, topic in enumerate(("/est", "/gt")):
+                st = np.array([1.5e9 + 0.125 * i + rr.random() * 1e-3 for i in range(N)]) if n % 2 else \
+                    np.array(sorted(2.0 ** (22 + (i + k) % 3) * (1.0 + rr.random()) for i in range(N)))
+                pos = np.array([[rr.uniform(-1e3, 1e3), rr.uniform(-1, 1), 1.0 / 3.0 + i] for i in range(N)])
+                quat = np.array([geom.quat_wxyz(geom.O24[(n + i + 5 * k) % 24]) for i in range(N)])
+                t = PoseTrajectory3D(positions_xyz=pos, orientations_quat_wxyz=quat, timestamps=st)
+                fi.write_bag_trajectory(wr, t, topic, frame_id=frames[topic])
+                src[topic] = (st, pos, quat)
+        r = cli.run_cli("traj", ["bag", "in.bag", "/est", "--ref", "/gt", "--save_as_bag", "--no_warnings"], d)
+        outs = [f for f in glob.glob(os.path.join(d, "*.bag")) if os.path.basename(f) != "in.bag"]
+        if r["code"] != 0 or r["exc"] != "none" or len(outs) != 1:
+            return {"out": "exit%s %s bags=%d" % (r["code"], r["exc"], len(outs)), "n": 0, "lost": 0, "type_same": False}
+        ts = get_typestore(Stores.ROS1_NOETIC)
+        got = {}
+        with Reader(outs[0]) as rd:
+            for conn, _, raw in rd.messages():
+                m = ts.deserialize_ros1(raw, conn.msgtype)
+                got.setdefault(conn.topic, []).append(m)
+        lost, total, frames_ok = 0, 0, set(got) == set(src)
+        for topic, (st, pos, quat) in src.items():
+            msgs = got.get(topic, [])
+            total += len(msgs)
+            for i, m in enumerate(msgs[:len(st)]):
+                p, q, h = m.pose.position, m.pose.orientation, m.header
+                if [bits(p.x), bits(p.y), bits(p.z)] != [bits(v) for v in pos[i]]:
+                    lost += 1
+                if [bits(q.w), bits(q.x), bits(q.y), bits(q.z)] != [bits(v) for v in quat[i]]:
+                    lost += 1
+                if abs(Fraction(h.stamp.sec) + Fraction(h.stamp.nanosec, 10 ** 9) - Fraction(float(st[i]))) > Fraction(1, 10 ** 9):
+                    lost += 1
+                if h.frame_id != frames[topic]:
+                    frames_ok = False
+        return {"out": "ok", "n": int(total), "lost": int(lost), "type_same": bool(frames_ok)}
+    except Exception as e:  # noqa: BLE001
+        return {"out": type(e).__name__ + ":" + str(e)[:80], "n": 0, "lost": 0, "type_same": False}
+    finally:
+        shutil.rmtree(d, ignore_errors=True)
+
 # ---- adversarial float64 values for the lossless round trips
 def specials():
     return [0.1 + 0.2, 1.0 / 3.0, math.pi, -math.e, 1e300, -1e300, 1e-300, 5e-324, -0.0, 0.0, 1.5e9 + 1e-9, 1500000000.123456789,
